@@ -14,6 +14,8 @@
 #include "muduo/base/Mutex.h"
 #include "muduo/net/TcpConnection.h"
 
+#include <atomic>
+
 namespace muduo
 {
 namespace net
@@ -76,8 +78,8 @@ class TcpClient : noncopyable
   ConnectionCallback connectionCallback_;
   MessageCallback messageCallback_;
   WriteCompleteCallback writeCompleteCallback_;
-  bool retry_;   // atomic
-  bool connect_; // atomic
+  std::atomic<bool> retry_;    // written by enableRetry() on any thread
+  std::atomic<bool> connect_;  // written by connect()/disconnect()/stop() on any thread
   // always in loop thread
   int nextConnId_;
   mutable MutexLock mutex_;
